@@ -249,6 +249,41 @@ func run(b *harness.B) {
 			if ev.RU.ChainIndexElement().ID != a.id {
 				b.Violate("C06/revert-chain-index", "RevertUpdate reports a different chain index element than the block", wit)
 			}
+			// the chain index element and the attestation elements (the latter are only visible in the JSON form of
+			// the updates) are elements the apply reported too: same identity and leaf index, reverse order
+			var aj, rj struct {
+				AttestationElements []types.AttestationElement `json:"attestationElements"`
+				ChainIndexElement   types.ChainIndexElement    `json:"chainIndexElement"`
+			}
+			ruJSON, _ := json.Marshal(ev.RU)
+			if json.Unmarshal(a.auJSON, &aj) == nil && json.Unmarshal(ruJSON, &rj) == nil {
+				if aj.ChainIndexElement.StateElement.LeafIndex != rj.ChainIndexElement.StateElement.LeafIndex || aj.ChainIndexElement.ChainIndex != rj.ChainIndexElement.ChainIndex {
+					b.Violate("C06/revert-diffs-not-reverse-of-apply/chain-index-element", fmt.Sprintf("apply reported the chain index element at leaf %d, revert reports it at leaf %d", aj.ChainIndexElement.StateElement.LeafIndex, rj.ChainIndexElement.StateElement.LeafIndex), wit)
+				}
+				b.Count("chain_index_elements_compared", 1)
+				if len(aj.AttestationElements) != len(rj.AttestationElements) {
+					b.Violate("C06/revert-diffs-not-reverse-of-apply/attestation", fmt.Sprintf("count %d vs %d", len(aj.AttestationElements), len(rj.AttestationElements)), wit)
+				} else {
+					n := len(aj.AttestationElements)
+					for i := range aj.AttestationElements {
+						x, y := aj.AttestationElements[n-1-i], rj.AttestationElements[i]
+						if x.ID != y.ID || x.StateElement.LeafIndex != y.StateElement.LeafIndex {
+							what := "leaf index"
+							if x.ID != y.ID {
+								what = "order/identity"
+							}
+							b.Violate("C06/revert-diffs-not-reverse-of-apply/attestation", fmt.Sprintf("%s differs at position %d of %d: apply-reversed {id %v leaf %d} vs revert {id %v leaf %d}", what, i, n, x.ID, x.StateElement.LeafIndex, y.ID, y.StateElement.LeafIndex), wit)
+							break
+						}
+					}
+					if n > 0 {
+						b.Count("attestation_lists_compared_nonempty", 1)
+					}
+					if n > 1 {
+						b.Count("attestation_lists_compared_with_two_or_more", 1)
+					}
+				}
+			}
 			// 3. every stored element verifies against the parent state
 			bad := 0
 			n := 0
